@@ -53,6 +53,9 @@ CHECKS.update({
  "C18": dict(engine="pdi", section="6/C18",
    text="DcSync.tla models configure_dc_sync and the per-cycle arithmetic; TLC checks OnlySelectedTouched, StartIsMultipleInInterval, RangeRejected, OnlyRangeRejected, NoReferenceRejected, SetupTotal, CycleExact exhaustively at scaled widths; Apalache discharges StartInv and CycleInv at the true 64/32-bit widths; the real code runs on the simulated segment with the reference clock preset to boundary and seeded 64-bit values (periods 1..2^32+, delays, shifts, every mix of DC support and sync modes) and DcSyncTrace re-verifies start = k*period, the interval, the activation flags, the untouched devices, offset = time mod period and wait = period - offset + shift with BigNat over quotient witnesses.",
    note="Witness quotients are computed by the driver and re-verified by the specification; the simulated reference clock is the trusted time source."),
+ "C08": dict(engine="pdilayout", section="6/C08",
+   text="PdiLayout.tla models the layout algorithm (one action per SubDevice and direction: inputs of a group in SubDevice order, then outputs, capacity check, next group at its own start address; per sync manager the SM registers and the FMMU chosen, created or extended) over device descriptions (process data sync managers per direction with the byte length their PDOs need after oversampling, FMMU usage list, FMMU_EX, CoE or EEPROM configured). TLC proves LengthsRight, WindowsRight (inside the image, inputs before outputs, disjoint), MapExact (the FMMUs translate every window byte to exactly the device's process data byte and map nothing else), SmRight, GroupsDisjoint and TooLongIsError for every network of up to 2-3 devices from a family with one or two sync managers per direction, back to back or spaced, one FMMU per direction or per sync manager, 1-3 groups and capacities small enough to reach PdiTooLong. Seeded networks of 1..16 devices (0..8 PDOs per direction, 1..64 bit entries, up to three sync managers per direction, CoE and EEPROM, FMMU_EX, oversampling, 1..3 groups, capacities 16..1024) are configured and cycled by the real MainDevice on the simulated segment; PdiLayoutTrace starts the model from each case and requires the same FMMU and SM registers, image lengths and group results (conformance), and judges the property's clauses on the observations alone: view lengths, FMMU translation of every window byte, disjointness, order, containment, capacity, group disjointness, and that the random outputs written to each SubDevice are what its output memory holds and its input memory is what its inputs show.",
+   note="Window positions are derived from the FMMU registers and confirmed by data flow. The EEPROM path programs FMMU[sync manager index] regardless of FMMU_EX (modelled as is; correct on the simulated 8-FMMU ESC)."),
  "C12": dict(engine="eeprom", section="6/C12",
    text="SiiRead.tla models EepromRange (window from start word and byte length, chunk assembly with odd-offset skip and end clamp, 4/8-byte devices); TLC proves ReturnsExactlyRange, NeverBeyondWindow and AccessesBounded for every start, length 0..20 and both chunk sizes. SiiImage.tla specifies the SII format (header words, category list, strings, general, FMMU, sync managers, FMMU_EX, PDOs with entry sums, container limits) as functions of the image bytes. The real MainDevice reads (start word, length) ranges through eeprom_read_raw / eeprom_read::<T> on simulated devices of 8 kbit to 4 Mbit serving 4 or 8 bytes per access, and SiiReadTrace requires exactly the bytes of the harness' own image copy, full length, nothing beyond the count, and the read count SiiRead predicts. Random device descriptions within the property's quantifier are encoded to images; SiiImageTrace requires every query of ethercrab's parser (through the field dump hook) and the identity/name/alias of the initialised SubDevice to equal SiiImage's reading of the image, and SiiImage's reading to equal the description (oracle cross-check).",
    note="Strings longer than the MainDevice's containers (64/128 bytes) are specified as StringTooLong; the port and physical-memory-address fields of the general category are outside the property and not compared (ethercrab reads them two bytes early, see DESIGN 11.3). A string index one past the table is not judged."),
@@ -102,6 +105,8 @@ def main():
                  kind_free_text="RxTriage.tla + RxTriageMC/Trace; harness rxtriage (prepared slot states, before/after snapshots)"),
             dict(name="wirelayout", path="checks/wirelayout.py", serves_properties=["C19"],
                  kind_free_text="WireLayout.tla + WireLayoutMC/Trace; generated crate harness/wiregen"),
+            dict(name="pdilayout", path="checks/pdilayout.py", serves_properties=["C08"],
+                 kind_free_text="PdiLayout.tla + PdiLayoutMC/Trace; vsim2 pdi engine (registers, views and process memory of simulated devices)"),
             dict(name="eeprom", path="checks/eeprom.py", serves_properties=["C12", "C13", "C14"],
                  kind_free_text="SiiRead/SiiImage/SiiCategories/SiiWrite + SiiReadTrace/SiiImageTrace/SiiHostileTrace/SiiWriteTrace; vsim2 eeprom engine (public API on simulated devices, parser over an in-memory provider through the hooks)"),
             dict(name="simdev", path="harness/simdev", serves_properties=["C07", "C09", "C10", "C11", "C18"],
